@@ -5,6 +5,21 @@ seeded random larger graphs is pushed through the real CouplingGraph /
 PermutationMatrix code and through the Lean model (bqdriver graph); outputs are
 compared exactly after canonicalisation.  Independent textbook oracles written
 here decide whether a disagreement is a violation of the stated property.
+
+Kronecker clause (bqdriver kron): the real UnitaryMatrix.otimes / ipower and
+UnitaryBuilder.apply_left / apply_right / get_unitary / eval_apply_* run on
+exact monomial matrices (permutation times a diagonal of fourth roots of unity;
+all products are exact in floating point) for mixed radixes, and are compared
+(1) with an explicit reference written here by digit arithmetic and (2) with the
+exact integer model BqVerif.Kron.  Dense random unitaries are compared with the
+reference only (tolerance 1e-9).  Conventions (docstrings of unitarybuilder.py,
+"Applying the unitary on the right is equivalent to multiplying the unitary on
+the left of the tensor"):
+    apply_right(M, loc):  U <- Embed(M, loc) @ U
+    apply_left(M, loc):   U <- U @ Embed(M, loc)
+    inverse=True:         M is replaced by its conjugate transpose
+    Embed(M, loc): gate qudit k is builder qudit loc[k]; identity elsewhere;
+    indices are mixed-radix numbers with qudit 0 the most significant digit.
 """
 from __future__ import annotations
 
@@ -114,6 +129,347 @@ def all_graphs(n):
         yield [p for i, p in enumerate(pairs) if mask >> i & 1]
 
 
+SIG_WHAT = {
+    'subgraph-accepts-non-injective-renumbering':
+        'get_subgraph accepts a non-injective renumbering (docstring: must be '
+        'a permutation of [0, len(location))) and returns a merged graph, e.g.'
+        ' CouplingGraph([(0,1)],3).get_subgraph((0,1,2),{0:0,1:2,2:2}) has '
+        'edges {(0,2)} instead of raising ValueError',
+    'subgraph-accepts-malformed-renumbering':
+        'get_subgraph accepts a renumbering that is not a bijection '
+        'location -> [0, len(location)) instead of raising',
+    'kron-apply-accepts-malformed-arguments':
+        'UnitaryBuilder.apply_left/apply_right accept an invalid location or '
+        'an operand whose size / radixes do not match the location (documented'
+        ' to raise)',
+}
+
+
+# ------------------------------------------- Kronecker clause: reference code
+PH = (1, 1j, -1, -1j)
+
+
+def rand_mono(rng, d):
+    """Random monomial matrix as list column -> (row, phase)."""
+    perm = list(range(d))
+    rng.shuffle(perm)
+    return [(perm[c], rng.randrange(4)) for c in range(d)]
+
+
+def mono_np(m):
+    A = np.zeros((len(m), len(m)), dtype=np.complex128)
+    for c, (r, p) in enumerate(m):
+        A[r, c] = PH[p]
+    return A
+
+
+def mono_txt(m):
+    return ' '.join(f'{r} {p}' for r, p in m)
+
+
+def canon_mono(A, tol=1e-9):
+    """'row:phase ...' per column after checking that A really is a monomial
+    matrix with entries in {0, +-1, +-i} (up to tol)."""
+    A = np.asarray(A)
+    if A.ndim != 2 or A.shape[0] != A.shape[1]:
+        return f'bad-shape-{A.shape}'
+    out, rows = [], set()
+    for c in range(A.shape[1]):
+        col = A[:, c]
+        r = int(np.argmax(np.abs(col)))
+        ph = [p for p in range(4) if abs(col[r] - PH[p]) <= tol]
+        rest = np.abs(np.delete(col, r))
+        if len(ph) != 1 or (rest.size and rest.max() > tol) or r in rows:
+            return 'not-monomial'
+        rows.add(r)
+        out.append(f'{r}:{ph[0]}')
+    return ' '.join(out)
+
+
+def prod(xs):
+    r = 1
+    for x in xs:
+        r *= x
+    return r
+
+
+def digit_table(radixes):
+    """D[x, q] = digit of qudit q in the mixed-radix expansion of x (qudit 0
+    most significant)."""
+    n, d = len(radixes), prod(radixes)
+    D = np.zeros((d, n), dtype=np.int64)
+    x = np.arange(d)
+    for q in range(n):
+        w = prod(radixes[q + 1:])
+        D[:, q] = (x // w) % radixes[q]
+    return D
+
+
+def ref_kron(A, B):
+    """K[r1*d2 + r2, c1*d2 + c2] = A[r1, c1] * B[r2, c2]."""
+    d1, d2 = A.shape[0], B.shape[0]
+    K = np.zeros((d1 * d2, d1 * d2), dtype=np.complex128)
+    for r1 in range(d1):
+        for c1 in range(d1):
+            if A[r1, c1] != 0:
+                K[r1 * d2:(r1 + 1) * d2, c1 * d2:(c1 + 1) * d2] = A[r1, c1] * B
+    return K
+
+
+def ref_embed(M, loc, radixes):
+    """E[row, col] = M[sub(row), sub(col)] if row and col agree on every qudit
+    outside loc, else 0; sub(x) = number with digits x[loc[0]], x[loc[1]], ...
+    """
+    D = digit_table(radixes)
+    sub = np.zeros(D.shape[0], dtype=np.int64)
+    for q in loc:
+        sub = sub * radixes[q] + D[:, q]
+    rest = np.zeros(D.shape[0], dtype=np.int64)
+    for q in range(len(radixes)):
+        if q not in loc:
+            rest = rest * radixes[q] + D[:, q]
+    return M[sub[:, None], sub[None, :]] * (rest[:, None] == rest[None, :])
+
+
+def ref_power(M, k):
+    B = M.conj().T if k < 0 else M
+    R = np.eye(M.shape[0], dtype=np.complex128)
+    for _ in range(abs(k)):
+        R = R @ B
+    return R
+
+
+def tensor_entries(T, radixes):
+    """The dim x dim matrix read out of a tensor of shape radixes+radixes by
+    digit indexing: entry (row, col) = T[digits(row) + digits(col)]."""
+    D = digit_table(radixes)
+    n = len(radixes)
+    idx = tuple(D[:, q][:, None] for q in range(n)) \
+        + tuple(D[:, q][None, :] for q in range(n))
+    return np.asarray(T)[idx]
+
+
+def rand_radixes(rng, lo, hi, maxdim):
+    while True:
+        rs = tuple(rng.choice((2, 3, 4)) for _ in range(rng.randint(lo, hi)))
+        if prod(rs) <= maxdim:
+            return rs
+
+
+def run_kron(ck, thorough):
+    """Kronecker clause; returns the list of driver cases for `bqdriver kron`.
+    """
+    from bqskit.qis.unitary.unitarybuilder import UnitaryBuilder
+    from bqskit.qis.unitary.unitarymatrix import UnitaryMatrix
+    from scipy.stats import unitary_group
+    rng = ck.rng
+    scale = 10 if thorough else 1
+    cases = []
+    TOL = 1e-9
+
+    def close(A, B):
+        A, B = np.asarray(A), np.asarray(B)
+        return A.shape == B.shape and float(np.abs(A - B).max()) <= TOL
+
+    def dense(d):
+        return unitary_group.rvs(
+            d, random_state=np.random.RandomState(rng.getrandbits(32))) \
+            if d > 1 else np.array([[PH[rng.randrange(4)]]], dtype=complex)
+
+    def radix_check(kind, got, want, replay):
+        if tuple(got) != tuple(want):
+            ck.violation(
+                f'kron-{kind}-radixes', f'{kind}: result radixes {tuple(got)}'
+                f' differ from the definition {tuple(want)}', replay)
+
+    # ---- otimes: self.otimes(*others) = self (x) o1 (x) o2 ...
+    for i in range(400 * scale):
+        nops = rng.choice((0, 1, 1, 1, 2, 2))
+        while True:
+            rads = [rand_radixes(rng, 1, 3, 64) for _ in range(nops + 1)]
+            if prod(prod(r) for r in rads) <= 144:
+                break
+        monos = [rand_mono(rng, prod(r)) for r in rads]
+        us = [UnitaryMatrix(mono_np(m), r) for m, r in zip(monos, rads)]
+        res = us[0].otimes(*us[1:])
+        ref = mono_np(monos[0])
+        for m in monos[1:]:
+            ref = ref_kron(ref, mono_np(m))
+        line = 'otimes | ' + ' | '.join(mono_txt(m) for m in monos)
+        rp = {'request': line, 'radixes': rads}
+        radix_check('otimes', res.radixes, sum(rads, ()), rp)
+        ck.bump('kron_dims', str(ref.shape[0]))
+        cases.append((line, canon_mono(res.numpy), canon_mono(ref),
+                      ('otimes', tuple(map(tuple, monos))), None))
+    # ---- ipower
+    for i in range(300 * scale):
+        rads = rand_radixes(rng, 1, 3, 36)
+        m = rand_mono(rng, prod(rads))
+        k = rng.randint(-5, 7)
+        res = UnitaryMatrix(mono_np(m), rads).ipower(k)
+        line = f'ipower | {mono_txt(m)} | {k}'
+        radix_check('ipower', res.radixes, rads, {'request': line})
+        cases.append((line, canon_mono(res.numpy),
+                      canon_mono(ref_power(mono_np(m), k)),
+                      ('ipower', tuple(m), k), None))
+
+    # ---- builder: sequences of apply_right / apply_left on monomial gates
+    def gen_op(n, rads, exact):
+        k = rng.randint(1, min(3, n))
+        loc = tuple(rng.sample(range(n), k))
+        oprad = tuple(rads[q] for q in loc)
+        side = rng.choice('RL')
+        inv = rng.random() < 0.5
+        if exact:
+            m = rand_mono(rng, prod(oprad))
+            return side, inv, loc, oprad, m, mono_np(m)
+        return side, inv, loc, oprad, None, dense(prod(oprad))
+
+    def apply(b, side, inv, loc, oprad, M):
+        f = b.apply_right if side == 'R' else b.apply_left
+        f(UnitaryMatrix(M, oprad), loc, inv)
+
+    def ref_apply(U, side, inv, loc, rads, M):
+        E = ref_embed(M.conj().T if inv else M, loc, rads)
+        return E @ U if side == 'R' else U @ E
+
+    def op_txt(side, inv, loc, oprad, m):
+        return (f'{side} {int(inv)} | ' + ' '.join(map(str, loc)) + ' | '
+                + ' '.join(map(str, oprad)) + ' | ' + mono_txt(m))
+
+    def builder_case(exact, malformed=None):
+        n = rng.randint(1, 4)
+        rads = rand_radixes(rng, n, n, 108)
+        b = UnitaryBuilder(n, rads)
+        U = np.eye(prod(rads), dtype=np.complex128)
+        ops, txt = [], []
+        nops = rng.randint(0 if malformed else 1, 4)
+        for _ in range(nops):
+            side, inv, loc, oprad, m, M = gen_op(n, rads, exact)
+            # eval_apply_* (no state change, raw matrix, no inverse flag)
+            if rng.random() < 0.3:
+                f = b.eval_apply_right if side == 'R' else b.eval_apply_left
+                from bqskit.ir.location import CircuitLocation
+                got = f(M, CircuitLocation(loc))
+                want = ref_apply(U, side, False, loc, rads, M)
+                ck.bump('kron_eval_apply_checked')
+                if not close(got, want):
+                    ck.violation(
+                        'kron-eval_apply-differs-from-definition',
+                        'eval_apply_' + ('right' if side == 'R' else 'left')
+                        + ' differs from the explicit embedding product',
+                        {'radixes': rads, 'ops_before': ops, 'side': side,
+                         'location': loc, 'matrix': str(M.tolist())})
+            U = ref_apply(U, side, inv, loc, rads, M)
+            ops.append((side, inv, loc, oprad,
+                        m if exact else str(M.tolist())))
+            if exact:
+                txt.append(op_txt(side, inv, loc, oprad, m))
+            ck.bump('kron_apply_steps', side + ('-inv' if inv else ''))
+            try:
+                # a valid apply must neither raise nor leave a tensor of the
+                # wrong shape; either is the property failing on this input
+                apply(b, side, inv, loc, oprad, M)
+                got = b.get_unitary()
+                bad = (tuple(np.asarray(b.tensor).shape) != tuple(rads) * 2
+                       or not close(got.numpy, U)
+                       or not close(tensor_entries(b.tensor, rads), U))
+            except Exception as e:                  # noqa: BLE001
+                bad = True
+                got = type('G', (), {'numpy': np.zeros_like(U)})()
+                ops.append(('raised', repr(e)[:200]))
+            if bad:
+                name = 'apply_right' if side == 'R' else 'apply_left'
+                ck.violation(
+                    f'kron-{name}-differs-from-definition',
+                    f'UnitaryBuilder.{name}: builder unitary / tensor differs '
+                    'from the explicit Kronecker embedding product',
+                    {'radixes': rads, 'ops': ops})
+                break
+        line = 'build | ' + ' '.join(map(str, rads)) + ''.join(
+            ' | ' + t for t in txt)
+        if malformed is None:
+            ur = b.get_unitary()
+            radix_check('build', ur.radixes, rads, {'request': line})
+            return line, ur.numpy, U, (rads, tuple(map(str, ops)))
+        # one more op whose arguments the code must reject
+        side, inv = rng.choice('RL'), rng.random() < 0.5
+        if malformed == 'dup-loc' and n >= 1:
+            q = rng.randrange(n)
+            loc, oprad = (q, q), (rads[q], rads[q])
+        elif malformed == 'range-loc':
+            loc, oprad = (n + rng.randint(0, 2),), (rng.choice((2, 3, 4)),)
+        elif malformed == 'size':
+            loc = tuple(rng.sample(range(n), rng.randint(1, min(2, n))))
+            oprad = tuple(rads[q] for q in loc) + (rng.choice((2, 3)),)
+        elif malformed == 'radix-swap' and len(set(rads)) > 1:
+            # same total dimension, radixes in the wrong order: only the
+            # explicit radix check can reject this one
+            a = rng.randrange(n)
+            bq = rng.choice([q for q in range(n) if rads[q] != rads[a]])
+            loc, oprad = (a, bq), (rads[bq], rads[a])
+        else:   # radix mismatch on one qudit of the location
+            malformed = 'radix'
+            loc = tuple(rng.sample(range(n), rng.randint(1, min(2, n))))
+            oprad = [rads[q] for q in loc]
+            j = rng.randrange(len(loc))
+            oprad[j] = rng.choice([r for r in (2, 3, 4) if r != oprad[j]])
+            oprad = tuple(oprad)
+        m = rand_mono(rng, prod(oprad))
+        try:
+            apply(b, side, inv, loc, oprad, mono_np(m))
+            impl = canon_mono(b.get_unitary().numpy)
+        except (ValueError, TypeError):
+            impl = 'raise'
+        except Exception as e:                      # noqa: BLE001
+            impl = 'raise-' + type(e).__name__
+        line += ' | ' + op_txt(side, inv, loc, oprad, m)
+        ck.bump('kron_malformed', malformed)
+        return line, impl, 'raise', (rads, tuple(map(str, ops)), loc, oprad,
+                                     tuple(m))
+
+    for i in range(800 * scale):
+        line, got, U, key = builder_case(True)
+        ck.bump('kron_dims', str(U.shape[0]))
+        cases.append((line, canon_mono(got), canon_mono(U), ('build', key),
+                      None))
+    for i in range(100 * scale):
+        kind = ('dup-loc', 'range-loc', 'size', 'radix', 'radix-swap')[i % 5]
+        line, impl, orc, key = builder_case(True, kind)
+        cases.append((line, impl, orc, ('build-bad', key),
+                      'kron-apply-accepts-malformed-arguments'))
+
+    # ---- dense random unitaries: reference only, tolerance 1e-9
+    for i in range(100 * scale):
+        builder_case(False)
+        ck.count(('dense-build', i, ck.seed))
+        ck.bump('kron_dense_cases', 'build')
+    for i in range(80 * scale):
+        rads = [rand_radixes(rng, 1, 2, 12) for _ in range(rng.randint(2, 3))]
+        Ms = [dense(prod(r)) for r in rads]
+        res = UnitaryMatrix(Ms[0], rads[0]).otimes(
+            *[UnitaryMatrix(M, r) for M, r in zip(Ms[1:], rads[1:])])
+        ref = Ms[0]
+        for M in Ms[1:]:
+            ref = ref_kron(ref, M)
+        rp = {'radixes': rads, 'matrices': [str(M.tolist()) for M in Ms]}
+        radix_check('otimes', res.radixes, sum(rads, ()), rp)
+        if not close(res.numpy, ref):
+            ck.violation('kron-otimes-differs-from-definition',
+                         'otimes (dense unitaries) differs from the explicit '
+                         'Kronecker product', rp)
+        k = rng.randint(-4, 5)
+        p = UnitaryMatrix(Ms[0], rads[0]).ipower(k)
+        if not close(p.numpy, ref_power(Ms[0], k)):
+            ck.violation('kron-ipower-differs-from-definition',
+                         'ipower (dense unitary) differs from the repeated '
+                         'product', {'radixes': rads[0], 'power': k,
+                                     'matrix': str(Ms[0].tolist())})
+        ck.count(('dense-otimes-ipower', i, ck.seed))
+        ck.bump('kron_dense_cases', 'otimes+ipower')
+    return cases
+
+
 def run(ck: Check):
     from bqskit.ir.circuit import Circuit  # noqa: F401 (import order)
     from bqskit.qis.graph import CouplingGraph
@@ -125,10 +481,10 @@ def run(ck: Check):
     maxn = 6 if thorough else 5
     nrand = 4000 if thorough else 300
 
-    cases = []   # (line, impl, oracle|None, key)
+    cases = []   # (line, impl, oracle|None, key, signature override|None)
 
-    def add(line, impl, oracle, key):
-        cases.append((line, impl, oracle, key))
+    def add(line, impl, oracle, key, sig=None):
+        cases.append((line, impl, oracle, key, sig))
 
     def safe(f):
         try:
@@ -152,6 +508,39 @@ def run(ck: Check):
                      for a, b in edges]
             edges += [rng.choice(edges)] if edges else []
         graphs.append((n, edges, False))
+
+    def subsize_case(g, n, edges, nes, gl, key, k):
+        """get_subgraphs_of_size(k): as a set of vertex sets = the connected
+        k-subsets (oracle + model); and, as an enumeration, no vertex set may
+        be listed twice.  (Before the fix b592992 the code built
+        CircuitLocation(list(curr_path)) from a Python set; for labels >= 8
+        the iteration order of that set depends on the insertion history and
+        CircuitLocation equality is order sensitive, so the same vertex set
+        was returned several times.)"""
+        r = safe(lambda: g.get_subgraphs_of_size(k))
+        impl = r if r == 'raise' else ' ; '.join(
+            ' '.join(map(str, l)) for l in
+            sorted({tuple(sorted(l)) for l in r}))
+        add(f'subsize {gl} | {k}', impl, ' ; '.join(
+            ' '.join(map(str, l))
+            for l in o_conn_subsets(n, nes, k)), ('ss', key, k))
+        if r != 'raise':
+            ck.count(('ss-dup', key, k))
+            if len({frozenset(l) for l in r}) != len(r):
+                dup = sorted(tuple(l) for l in r)
+                ck.violation(
+                    'subsize-duplicate-vertex-sets',
+                    'get_subgraphs_of_size lists the same vertex set more '
+                    'than once (in different orders)',
+                    {'n': n, 'edges': edges, 'size': k, 'result': dup[:12]})
+
+    # reproducers of the former duplicate enumeration (labels >= 8; fixed by
+    # b592992), every seed
+    for n, edges, k in [(9, [(0, 8)], 2),
+                        (17, [(0, 8), (0, 16), (8, 16)], 3)]:
+        g = CouplingGraph(edges, n)
+        nes = sorted({tuple(sorted(e)) for e in edges})
+        subsize_case(g, n, edges, nes, gline(n, edges), (n, tuple(nes)), k)
 
     for n, edges, small in graphs:
         g = CouplingGraph(edges, n)
@@ -225,16 +614,10 @@ def run(ck: Check):
                     'spt-not-shortest', 'get_shortest_path_tree returns a '
                     'path that is not a valid shortest path / raises wrongly',
                     {'n': n, 'edges': edges, 'source': s, 'impl': impl})
-        # subgraphs
-        if n <= 7:
-            for k in (range(1, n + 1) if small else [rng.randint(1, min(n, 4))]):
-                r = safe(lambda: g.get_subgraphs_of_size(k))
-                impl = r if r == 'raise' else ' ; '.join(
-                    ' '.join(map(str, l)) for l in
-                    sorted({tuple(sorted(l)) for l in r}))
-                add(f'subsize {gl} | {k}', impl, ' ; '.join(
-                    ' '.join(map(str, l))
-                    for l in o_conn_subsets(n, nes, k)), ('ss', key, k))
+        # subgraphs (all sizes of graphs; vertex labels >= 8 matter, see
+        # subsize_case)
+        for k in (range(1, n + 1) if small else [rng.randint(1, min(n, 4))]):
+            subsize_case(g, n, edges, nes, gl, key, k)
         locs = []
         if small and n <= 4:
             for k in range(1, n + 1):
@@ -349,43 +732,418 @@ def run(ck: Check):
                         ' '.join(map(str, rows)), ' '.join(map(str, spec)),
                         ('perm', n, r_, loc))
 
+    # gen_swap_unitary: the matrix itself (column -> row of the single 1)
+    for r_ in range(2, 8):
+        S = np.asarray(PermutationMatrix.gen_swap_unitary(r_).numpy)
+        ok = (S.shape == (r_ * r_, r_ * r_)
+              and np.all((S == 0) | (S == 1))
+              and np.all(S.sum(0) == 1) and np.all(S.sum(1) == 1))
+        rows = [int(np.argmax(np.abs(S[:, c]))) for c in range(r_ * r_)]
+        add(f'genswap {r_}', ' '.join(map(str, rows)) if ok else 'not-0/1',
+            ' '.join(str((c % r_) * r_ + c // r_) for c in range(r_ * r_)),
+            ('genswap', r_))
+
+
+    # ------------------------------------------------------------------
+    # is_fully_connected_without(q).  Oracle (n >= 2, q < n): the graph induced
+    # on V \ {q} is connected.  Outside that domain only the model is compared:
+    # n = 1, q = 0 raises IndexError (start vertex 1 does not exist); q >= n is
+    # not rejected: the loop runs on the whole graph with target size n - 1.
+    def o_connected_without(n, nes, q):
+        idx = {v: i for i, v in enumerate(x for x in range(n) if x != q)}
+        return o_connected(n - 1, [(idx[a], idx[b]) for a, b in nes
+                                   if a != q and b != q])
+
+    for n, edges, small in graphs:
+        g = CouplingGraph(edges, n)
+        gl = gline(n, edges)
+        nes = sorted({tuple(sorted(e)) for e in edges})
+        qs = range(n + 1) if small else \
+            [rng.randrange(n), rng.randrange(n), n + rng.randint(0, 1)]
+        for q in dict.fromkeys(qs):
+            try:
+                impl = str(g.is_fully_connected_without(q)).lower()
+            except IndexError:
+                impl = 'raise'
+            orc = None
+            if n >= 2 and q < n:
+                orc = str(o_connected_without(n, nes, q)).lower()
+                ck.bump('fcw_oracle', orc)
+            else:
+                ck.bump('fcw_outside_domain', impl)
+            add(f'fcw {gl} | {q}', impl, orc, ('fcw', n, tuple(nes), q))
+
+    # ------------------------------------------------------------------
+    # QPU functions with remote edges.  Definition: the QPUs are the connected
+    # components of (V, E \ remote); the code discovers them by increasing
+    # smallest vertex (qpu[0] is that vertex); inside a QPU the order is the
+    # set.pop order, so members are compared as sets.
+    def qpu_case(n, edges, rem):
+        g = CouplingGraph(edges, n, rem)
+        nes = sorted({tuple(sorted(e)) for e in edges})
+        nrem = sorted({tuple(sorted(e)) for e in rem})
+        q2q_map = g.get_qpu_to_qudit_map()
+        q2q_map = [list(x) for x in q2q_map]
+        qmap = g.get_qudit_to_qpu_map()
+        conn = g.get_qpu_connectivity()
+        count = g.qpu_count()
+        rp = {'n': n, 'edges': edges, 'remote_edges': rem,
+              'qpu_to_qudit': q2q_map, 'qudit_to_qpu': qmap,
+              'qpu_connectivity': [sorted(x) for x in conn]}
+        # ---- definition
+        lab = reach_sets(n, [e for e in nes if e not in nrem])
+        comps = {}
+        for v in range(n):
+            comps.setdefault(lab[v], []).append(v)
+        comps = sorted(comps.values())        # by smallest member
+        cidx = {v: k for k, c in enumerate(comps) for v in c}
+        ok = ([sorted(x) for x in q2q_map] == comps
+              and all(x[0] == min(x) for x in q2q_map)
+              and sum(len(x) for x in q2q_map) == n)
+        if not ok:
+            ck.violation(
+                'qpu-map-differs-from-definition', 'get_qpu_to_qudit_map: the '
+                'QPUs are not the connected components of the graph without '
+                'its remote edges (ordered by smallest qudit)', rp)
+        if count != len(comps):
+            ck.violation('qpu-count-differs-from-definition',
+                         'qpu_count differs from the number of components of '
+                         'the graph without remote edges', rp)
+        spec_map = [cidx[v] for v in range(n)]
+        insertion = [k for k, x in enumerate(q2q_map) for _ in x]
+        if list(qmap) != spec_map:
+            ck.bump('qpu_findings', 'qudit_to_qpu')
+            ck.violation(
+                'qudit-to-qpu-map-not-indexed-by-qudit'
+                if list(qmap) == insertion else
+                'qudit-to-qpu-map-differs-from-definition',
+                'get_qudit_to_qpu_map()[q] is not the QPU that holds qudit q '
+                '(the list is in dict insertion order, QPU by QPU, instead of '
+                'being indexed by qudit): e.g. CouplingGraph([(0,2),(1,2)],3,'
+                '[(1,2)]).get_qudit_to_qpu_map() == [0,0,1], expected [0,1,0]',
+                dict(rp, expected=spec_map))
+
+        def conn_with(m):
+            adj = [set() for _ in comps]
+            for a, b in nrem:
+                adj[m[a]].add(m[b])
+                adj[m[b]].add(m[a])
+            return adj
+        clean = all(cidx[a] != cidx[b] for a, b in nrem)
+        ck.bump('qpu_inputs', 'clean' if clean else 'remote-edge-inside-qpu')
+        if ok and clean and len(conn) == len(comps) \
+                and list(conn) != conn_with(spec_map):
+            ck.bump('qpu_findings', 'connectivity')
+            ck.violation(
+                'qpu-connectivity-uses-misindexed-qudit-map'
+                if list(conn) == conn_with(insertion) else
+                'qpu-connectivity-differs-from-definition',
+                'get_qpu_connectivity: two QPUs are reported adjacent although'
+                ' no remote edge joins them (it looks qudits up in the '
+                'mis-indexed get_qudit_to_qpu_map list): e.g. CouplingGraph('
+                '[(0,3),(1,3),(2,3)],4,[(1,3),(2,3)]).get_qpu_connectivity() '
+                '== [{2},{2},{0,1}], expected [{1,2},{0},{0}]',
+                dict(rp, expected=[sorted(x) for x in conn_with(spec_map)]))
+        elif len(conn) != len(comps):
+            ck.violation('qpu-connectivity-differs-from-definition',
+                         'get_qpu_connectivity has the wrong length', rp)
+        # ---- individual graphs: induced subgraphs in the code's own order
+        subs = g.get_individual_qpu_graphs()
+        if not rem:
+            good = len(subs) == 1 and subs[0] is g   # documented shortcut
+        else:
+            good = len(subs) == len(q2q_map)
+            for sub, qpu in zip(subs, q2q_map):
+                es = {tuple(sorted(e)) for e in sub._edges}
+                good = good and sub.num_qudits == len(qpu) and es == {
+                    (i, j) for i in range(len(qpu)) for j in range(i + 1,
+                                                                   len(qpu))
+                    if tuple(sorted((qpu[i], qpu[j]))) in nes}
+        if not good:
+            ck.violation(
+                'qpu-graphs-differ-from-definition',
+                'get_individual_qpu_graphs: some graph is not the subgraph '
+                'induced on its QPU (renumbered by position)',
+                dict(rp, graphs=[fmt_g(x) for x in subs]))
+        impl = (' ; '.join(' '.join(map(str, sorted(x))) for x in q2q_map)
+                + ' # ' + ' '.join(map(str, qmap)) + ' # '
+                + ' ; '.join(' '.join(map(str, sorted(x))) for x in conn))
+        add(f'qpu {gline(n, edges)} | '
+            + ' '.join(f'{a} {b}' for a, b in rem), impl, None,
+            ('qpu', n, tuple(nes), tuple(nrem)))
+        ck.bump('qpu_count_dist', str(len(comps)))
+
+    # reproducers of the two former findings (fixed by 2c665e0), then all
+    # (graph, remote subset) on <= 4 vertices, then random larger ones
+    qpu_case(3, [(0, 2), (1, 2)], [(1, 2)])
+    qpu_case(4, [(0, 3), (1, 3), (2, 3)], [(1, 3), (2, 3)])
+    for n, edges, small in graphs:
+        if small and n <= 4:
+            for mask in range(1 << len(edges)):
+                qpu_case(n, edges,
+                         [e for i, e in enumerate(edges) if mask >> i & 1])
+    for _ in range(6000 if thorough else 400):
+        n, edges, small = rng.choice(graphs) if rng.random() < 0.3 else \
+            graphs[-1 - rng.randrange(nrand)]
+        raw = list(dict.fromkeys(edges))
+        p = rng.choice((0.15, 0.3, 0.6))
+        qpu_case(n, edges, [e for e in raw if rng.random() < p])
+
+    # ------------------------------------------------------------------
+    # maximal_matching (relational; the result depends on set order / shuffle)
+    import random as _random
+
+    def matching_case(n, edges, ignore, randomize):
+        g = CouplingGraph(edges, n)
+        nes = {tuple(sorted(e)) for e in edges}
+        if randomize:
+            _random.seed(rng.getrandbits(32))
+        r = g.maximal_matching(list(ignore), randomize)
+        ign = {tuple(sorted(e)) for e in ignore}
+        ms = [tuple(sorted(e)) for e in r]
+        used = [v for e in ms for v in e]
+        why = None
+        if not all(e in nes for e in ms) or not all(
+                isinstance(e, tuple) and len(e) == 2 for e in r):
+            why = 'contains a pair that is not an edge of the graph'
+        elif len(used) != len(set(used)):
+            why = 'two of its edges share a vertex (or an edge is repeated)'
+        elif any(e in ign for e in ms):
+            why = 'contains an ignored edge'
+        elif any(a not in used and b not in used
+                 for a, b in nes if (a, b) not in ign):
+            why = 'is not maximal: a non-ignored edge has both ends unmatched'
+        if why:
+            ck.violation(
+                'maximal_matching-differs-from-definition',
+                'maximal_matching: the result ' + why,
+                {'n': n, 'edges': edges, 'edges_to_ignore': list(ignore),
+                 'randomize': randomize, 'result': r})
+        # the same result through the Lean checker `validMatching` (whose
+        # meaning is the theorem C20_maximal_matching)
+        if all(isinstance(e, tuple) and len(e) == 2 and min(e) >= 0
+               for e in list(r) + list(ignore)):
+            add(f'matchcheck {gline(n, edges)} | '
+                + ' '.join(f'{a} {b}' for a, b in ignore) + ' | '
+                + ' '.join(f'{a} {b}' for a, b in r),
+                'true', str(why is None).lower(),
+                ('mmc', n, tuple(sorted(nes)), tuple(ignore), randomize,
+                 tuple(sorted(ms))),
+                'maximal_matching-differs-from-definition')
+        ck.count(('mm', n, tuple(sorted(nes)), tuple(ignore), randomize,
+                  tuple(sorted(ms))))
+        ck.bump('relational_cases', 'maximal_matching')
+        ck.bump('matching_size', str(len(ms)))
+
+    for n, edges, small in graphs:
+        nes = sorted({tuple(sorted(e)) for e in edges})
+        matching_case(n, edges, [], False)
+        if nes:
+            for randomize in (False, True):
+                ign = [e if rng.random() < 0.5 else (e[1], e[0])
+                       for e in nes if rng.random() < 0.4]
+                if rng.random() < 0.3:      # a non-edge in the ignore list
+                    ign.append((0, n))
+                matching_case(n, edges, ign, randomize)
+            matching_case(n, edges, [], True)
+
+    # ------------------------------------------------------------------
+    # get_rooted_minimum_span(root) on connected graphs (relational): n-1
+    # pairs (parent, child), each an edge of g, parent already reached, every
+    # vertex reached exactly once, and the tree is a BFS tree (depth in the tree
+    # = hop distance from the root).  The DFS pre-order of the listing is not
+    # checked.  The same result goes through the Lean checker validMinSpan.
+    for n, edges, small in graphs:
+        nes = {tuple(sorted(e)) for e in edges}
+        if not o_connected(n, nes):
+            continue
+        g = CouplingGraph(edges, n)
+        for root in (range(n) if small and n <= 4 else [rng.randrange(n)]):
+            try:
+                r = g.get_rooted_minimum_span(root)
+            except Exception as e:                      # noqa: BLE001
+                r = 'raise-' + type(e).__name__
+            good = isinstance(r, list) and len(r) == n - 1
+            reached = {root}
+            if good:
+                for pr in r:
+                    good = good and len(pr) == 2 \
+                        and tuple(sorted(pr)) in nes \
+                        and pr[0] in reached and pr[1] not in reached
+                    if not good:
+                        break
+                    reached.add(pr[1])
+                good = good and len(reached) == n
+            if good:        # "minimum": a BFS tree (tree depth = hop distance)
+                depth = {root: 0}
+                for a, b in r:
+                    depth[b] = depth[a] + 1
+                good = depth == o_hops(n, nes, root)
+            if not good:
+                ck.violation(
+                    'rooted_span-differs-from-definition',
+                    'get_rooted_minimum_span: the result is not a list of n-1 '
+                    'graph edges (parent, child) that connects the root to '
+                    'every qudit by shortest paths, parents first',
+                    {'n': n, 'edges': edges, 'root': root, 'result': r})
+            if isinstance(r, list) and all(
+                    isinstance(x, tuple) and len(x) == 2 for x in r):
+                # through the Lean checker `validMinSpan` (theorem C20_rooted_span)
+                add(f'spancheck {gline(n, edges)} | {root} | '
+                    + ' '.join(f'{a} {b}' for a, b in r),
+                    'true', str(bool(good)).lower(),
+                    ('spanc', n, tuple(sorted(nes)), root, tuple(r)),
+                    'rooted_span-differs-from-definition')
+            ck.count(('span', n, tuple(sorted(nes)), root))
+            ck.bump('relational_cases', 'rooted_minimum_span')
+
+    # ------------------------------------------------------------------
+    # malformed renumberings of get_subgraph.  Definition (docstring): the
+    # renumbering must be a bijection location -> [0, len(location)); anything
+    # else must raise.  (Before the fix 494efa1 the code only checked len, keys,
+    # min == 0, max == len-1 and accepted non-injective renumberings.)
+    def sg_ren_case(n, edges, loc, ren, kind):
+        g = CouplingGraph(edges, n)
+        try:
+            r = g.get_subgraph(loc, dict(ren))
+            impl = fmt_g(r)
+        except (ValueError, TypeError):
+            impl = 'raise'
+        L = len(loc)
+        bij = (len(ren) == L and set(ren) == set(loc)
+               and sorted(ren.values()) == list(range(L)))
+        assert not bij
+        vals = list(ren.values())
+        noninj = (len(ren) == L and set(ren) == set(loc)
+                  and len(set(vals)) < L)
+        ck.bump('subgraph_malformed', kind + ('' if impl == 'raise'
+                                              else '-ACCEPTED'))
+        sig = ('subgraph-accepts-non-injective-renumbering' if noninj
+               else 'subgraph-accepts-malformed-renumbering')
+        if all(k >= 0 and v >= 0 for k, v in ren.items()):
+            add(f'subgraph {gline(n, edges)} | ' + ' '.join(map(str, loc))
+                + ' | 1 ' + ' '.join(f'{a} {b}' for a, b in ren.items()),
+                impl, 'raise', ('sgbad', n, tuple(edges), loc,
+                                tuple(ren.items())), sig)
+        elif impl != 'raise':      # negative numbers: implementation only
+            ck.violation(sig, 'get_subgraph accepts a renumbering that is '
+                         'not a permutation of [0, len(location))',
+                         {'n': n, 'edges': edges, 'location': loc,
+                          'renumbering': ren, 'impl': impl})
+
+    # the reproducer of the former finding (fixed by 494efa1), every seed
+    sg_ren_case(3, [(0, 1)], (0, 1, 2), {0: 0, 1: 2, 2: 2}, 'noninj')
+    for _ in range(20000 if thorough else 1500):
+        n, edges, small = rng.choice(graphs)
+        L = rng.randint(1, min(n, 5))
+        loc = tuple(rng.sample(range(n), L))
+        vals = list(range(L))
+        rng.shuffle(vals)
+        ren = dict(zip(loc, vals))
+        others = [q for q in range(n + 2) if q not in loc]
+        kind = rng.choice(('size+', 'size-', 'keys', 'shift', 'max',
+                           'noninj', 'noninj', 'anyvals', 'negative'))
+        if kind == 'size+':
+            ren[rng.choice(others)] = rng.randrange(L + 1)
+        elif kind == 'size-':
+            del ren[rng.choice(loc)]
+            if rng.random() < 0.5 and ren:      # keep min 0 / max L-1
+                ks = list(ren)
+                ren[ks[0]] = 0
+                ren[ks[-1]] = L - 1
+        elif kind == 'keys':
+            k = rng.choice(loc)
+            v = ren.pop(k)
+            ren[rng.choice(others)] = v
+        elif kind == 'shift':
+            ren = {k: v + 1 for k, v in ren.items()}
+        elif kind == 'max':
+            k = max(ren, key=ren.get)
+            ren[k] = L + rng.randint(0, 2)
+        elif kind == 'noninj':
+            if L < 3:
+                continue
+            # duplicate a value but keep 0 and L-1 present
+            mid = [k for k in loc if 0 < ren[k] < L - 1]
+            ren[rng.choice(mid)] = rng.randrange(L)
+            if sorted(ren.values()) == list(range(L)):
+                continue
+        elif kind == 'anyvals':
+            ren = {k: rng.randrange(L + 1) for k in loc}
+            if sorted(ren.values()) == list(range(L)):
+                continue
+        elif kind == 'negative':
+            ren = {k: v - 1 for k, v in ren.items()}
+        sg_ren_case(n, edges, loc, ren, kind)
+    # empty location: min() of an empty sequence raises (model only)
+    for n, edges, small in graphs[:30]:
+        r = safe(lambda: CouplingGraph(edges, n).get_subgraph(()))
+        add(f'subgraph {gline(n, edges)} |  | 0',
+            r if r == 'raise' else fmt_g(r), None, ('sg-empty', n,
+                                                    tuple(edges)))
+
     # ---------------------------------------------------------- run driver
-    outs = ck.driver('graph', [c[0] for c in cases])
-    if len(outs) != len(cases):
-        raise RuntimeError('driver output length mismatch')
     kinds = {}
-    for (line, impl, oracle, key), model in zip(cases, outs):
-        kind = line.split()[0]
-        kinds[kind] = kinds.get(kind, 0) + 1
-        ck.count(key)
-        ck.bump('traces_validated_against_impl')
-        if len(ck.coverage['samples']) < 8 and kinds[kind] in (7, 400):
-            ck.sample({'request': line, 'impl': impl, 'model': model})
-        bad_oracle = oracle is not None and impl != oracle
-        bad_model = impl != model
-        if bad_oracle:
-            ck.violation(
-                f'{kind}-differs-from-definition',
-                f'{kind}: implementation differs from the textbook definition',
-                {'request': line, 'impl': impl, 'definition': oracle,
-                 'model': model})
-        elif bad_model:
-            ck.violation(
-                f'{kind}-correspondence',
-                f'{kind}: implementation and Lean model disagree; the '
-                'definition oracle found no violating input (correspondence '
-                f'BqVerif.Graph <-> bqskit/qis/graph.py no longer checks)',
-                {'request': line, 'impl': impl, 'model': model,
-                 'definition': oracle, 'broken': 'correspondence graph'},
-                found_input=False)
+
+    def settle(machine, cases, prefix):
+        outs = ck.driver(machine, [c[0] for c in cases])
+        if len(outs) != len(cases):
+            raise RuntimeError('driver output length mismatch')
+        for (line, impl, oracle, key, sig), model in zip(cases, outs):
+            kind = prefix + line.split()[0]
+            kinds[kind] = kinds.get(kind, 0) + 1
+            ck.count(key)
+            ck.bump('traces_validated_against_impl')
+            if kinds[kind] == 7:
+                ck.sample({'request': line[:600], 'impl': impl[:400],
+                           'model': model[:400]}, limit=24)
+            bad_oracle = oracle is not None and impl != oracle
+            bad_model = impl != model
+            if bad_oracle:
+                ck.violation(
+                    sig or f'{kind}-differs-from-definition',
+                    SIG_WHAT.get(sig) or f'{kind}: implementation differs '
+                    'from the textbook definition',
+                    {'request': line, 'impl': impl, 'definition': oracle,
+                     'model': model})
+            if bad_model and (not bad_oracle or model != oracle):
+                ck.violation(
+                    f'{kind}-correspondence',
+                    f'{kind}: implementation and Lean model disagree; the '
+                    'definition oracle found no violating input '
+                    f'(correspondence bqdriver {machine} <-> /repo no longer '
+                    'checks)',
+                    {'request': line, 'impl': impl, 'model': model,
+                     'definition': oracle,
+                     'broken': f'correspondence {machine}'},
+                    found_input=False)
+
+    settle('graph', cases, '')
+    settle('kron', run_kron(ck, thorough), 'kron-')
     ck.coverage['requests_by_kind'] = kinds
     ck.coverage['rule'] = (
-        'each case = one API request on one graph (exhaustive over all '
-        f'labelled graphs on <= {maxn} vertices, seeded random graphs on 6-11 '
-        'vertices, all ordered locations for permutations); distinct = '
-        'distinct (request kind, canonical graph, arguments); all counted '
-        'cases are non-trivial in that they exercise the function on a '
-        'distinct input')
+        'each case = one API request on one input. Graph requests: exhaustive '
+        f'over all labelled graphs on <= {maxn} vertices, seeded random graphs '
+        'on 6-11 vertices, all ordered locations for permutations; '
+        'is_fully_connected_without for every q in 0..n (q = n is outside the '
+        'domain, model only); QPU functions for every (graph, remote-edge '
+        'subset) on <= 4 vertices plus seeded random ones; malformed '
+        'get_subgraph renumberings (wrong size / keys / shifted / too large / '
+        'non-injective / negative values) whose definition is "must raise"; '
+        'maximal_matching and get_rooted_minimum_span depend on set order: '
+        'every real result is checked relationally by a harness oracle and by '
+        'the Lean checkers validMatching / validMinSpan (matchcheck, spancheck)'
+        '. Kronecker requests (kron-*): random '
+        'monomial matrices with entries in {0,+-1,+-i} over mixed radixes '
+        '2/3/4: otimes of 1-3 operands, ipower with powers -5..7, builder '
+        'sequences of 1-4 apply_left/apply_right (random unsorted locations, '
+        'inverse flag) on 1-4 qudits with dimension <= 108, checked after every'
+        ' step against the explicit digit-arithmetic embedding and, at the end,'
+        ' exactly against the Lean index model; argument errors of apply_* '
+        'must raise; dense random unitaries against the reference only '
+        '(1e-9). distinct = distinct (request kind, canonical input, '
+        'arguments); every counted case exercises the function on a distinct '
+        'input')
     if not proved:
         ck.violation(
             'proof-obligation', 'Lean obligations of Props/C20 do not check: '
@@ -395,4 +1153,19 @@ def run(ck: Check):
     ck.assumptions += [
         'edge weights are naturals in the model; float weights only validated',
         'set iteration order abstracted: set-valued results compared sorted',
+        'QPU members are compared as sets (set.pop order not modelled); '
+        'maximal_matching / get_rooted_minimum_span depend on set order and '
+        'are validated relationally, not modelled',
+        'the Kronecker model BqVerif.Kron covers monomial matrices with '
+        'entries in {0,+-1,+-i} only (exact index/phase arithmetic); dense '
+        'unitaries are validated against the numpy reference written in the '
+        'harness with tolerance 1e-9',
+        'UnitaryMatrix.get_tensor_format does not exist in this /repo '
+        'snapshot; the tensor-format clause is checked on UnitaryBuilder.tensor'
+        ' (shape radixes*2, entries by digit indexing)',
+        'get_individual_qpu_graphs returns [self] when there are no remote '
+        'edges even if the graph is disconnected (qpu_count may then be > 1): '
+        'documented shortcut, accepted as the definition',
+        'get_qpu_connectivity is compared with the definition only when every '
+        'remote edge joins two different QPUs',
     ]
